@@ -323,8 +323,15 @@ class Envelope:
         outcomes = {}
         reshape_shape = []
         if self.state is None:
+            # Only the given state is measured if measured separately
             for s in [self.polarization, self.fock]:
-                out = s.measure()
+                if separate_measurement and len(states) == 1 and s is not states[0]:
+                    continue
+                if s.measured or any(s is k for k in outcomes):
+                    continue
+                out = s.measure(
+                    separate_measurement=True, destructive=destructive
+                )
                 for k, v in out.items():
                     outcomes[k] = v
         else:
